@@ -71,14 +71,14 @@ theorem putEntry_put_key (db : Db) (k : Bytes) (v v' : Value) (dl dl' : Option N
     putEntry (putEntry db ⟨k, v, dl⟩) ⟨k, v', dl'⟩ = putEntry db ⟨k, v', dl'⟩ :=
   putEntry_putEntry db ⟨k, v, dl⟩ ⟨k, v', dl'⟩ rfl
 
-theorem expireOpt_put (db : Db) (k : Bytes) (v : Value) (dl : Option Nat) :
+theorem expireOpt_put (db : Db) (k : Bytes) (v : Value) (dl : Option Nat) (hd : dlOk dl = true) :
     expireOpt true (putEntry db ⟨k, v, none⟩) k dl = .ok (putEntry db ⟨k, v, dl⟩) := by
   cases dl with
   | none => rfl
   | some d =>
     have hf := findKey_putEntry_same db ⟨k, v, none⟩
     simp only at hf
-    simp only [expireOpt, expire, Bool.not_true, Bool.false_eq_true, if_false, hf]
+    simp only [expireOpt, expire, hd, Bool.not_true, Bool.false_eq_true, if_false, hf]
     rw [putEntry_put_key]
 
 /-! ### allocation traces of valid values (buffer sizes = string lengths, in file order) -/
@@ -96,7 +96,7 @@ def valueAllocs : Value → List Nat
 
 /-! ### per type -/
 
-theorem loadTyped_str (fix : Fix) (db : Db) (k b : Bytes) (dl : Option Nat)
+theorem loadTyped_str (fix : Fix) (db : Db) (k b : Bytes) (dl : Option Nat) (hd : dlOk dl = true)
     (hk : strOk k = true) (hv : valueWF (.str b) = true) (hf : k ∉ keys db) (rest : Bytes) :
     loadTyped fix true db 0 dl (encString k ++ (encValue (.str b) ++ rest)) =
       .ok (k, db ++ [⟨k, .str b, dl⟩]) rest (k.length :: valueAllocs (.str b)) := by
@@ -106,9 +106,9 @@ theorem loadTyped_str (fix : Fix) (db : Db) (k b : Bytes) (dl : Option Nat)
   rw [readString_encString k hk]
   simp only [Res.bind_ok]
   rw [readString_encString b hv]
-  simp [setValue, putEntry_fresh db ⟨k, .str b, dl⟩ hf, valueAllocs]
+  simp [setValue, hd, putEntry_fresh db ⟨k, .str b, dl⟩ hf, valueAllocs]
 
-theorem loadTyped_set (fix : Fix) (db : Db) (k : Bytes) (xs : List Bytes) (dl : Option Nat)
+theorem loadTyped_set (fix : Fix) (db : Db) (k : Bytes) (xs : List Bytes) (dl : Option Nat) (hd : dlOk dl = true)
     (hk : strOk k = true) (hv : valueWF (.set xs) = true) (hf : k ∉ keys db) (rest : Bytes) :
     loadTyped fix true db 2 dl (encString k ++ (encValue (.set xs) ++ rest)) =
       .ok (k, db ++ [⟨k, .set xs, dl⟩]) rest (k.length :: valueAllocs (.set xs)) := by
@@ -123,10 +123,10 @@ theorem loadTyped_set (fix : Fix) (db : Db) (k : Bytes) (xs : List Bytes) (dl : 
   simp only [Res.bind_ok]
   rw [readStrings_encStrings xs hall]
   simp only [Res.bind_ok, sadd, Bool.not_true, Bool.false_eq_true, if_false, hnone,
-    insertAll_nodup [] xs (by simpa using hnd), List.nil_append, lift_ok, expireOpt_put]
+    insertAll_nodup [] xs (by simpa using hnd), List.nil_append, lift_ok, expireOpt_put _ _ _ _ hd]
   simp [putEntry_fresh db ⟨k, .set xs, dl⟩ hf, valueAllocs]
 
-theorem loadTyped_hash (fix : Fix) (db : Db) (k : Bytes) (fs : List (Bytes × Bytes)) (dl : Option Nat)
+theorem loadTyped_hash (fix : Fix) (db : Db) (k : Bytes) (fs : List (Bytes × Bytes)) (dl : Option Nat) (hd : dlOk dl = true)
     (hk : strOk k = true) (hv : valueWF (.hash fs) = true) (hf : k ∉ keys db) (rest : Bytes) :
     loadTyped fix true db 4 dl (encString k ++ (encValue (.hash fs) ++ rest)) =
       .ok (k, db ++ [⟨k, .hash fs, dl⟩]) rest (k.length :: valueAllocs (.hash fs)) := by
@@ -141,7 +141,7 @@ theorem loadTyped_hash (fix : Fix) (db : Db) (k : Bytes) (fs : List (Bytes × By
   simp only [Res.bind_ok]
   rw [readPairs_encPairs fs (fun p hp => hall p.1 p.2 hp)]
   simp only [Res.bind_ok, hset, Bool.not_true, Bool.false_eq_true, if_false, hnone,
-    upsertAll_nodup [] fs (by simpa [mkeys] using hnd), List.nil_append, lift_ok, expireOpt_put]
+    upsertAll_nodup [] fs (by simpa [mkeys] using hnd), List.nil_append, lift_ok, expireOpt_put _ _ _ _ hd]
   simp [putEntry_fresh db ⟨k, .hash fs, dl⟩ hf, valueAllocs]
 
 /-! ### lists and the escape rule -/
@@ -161,7 +161,7 @@ theorem listItems_of_not_needs (esc : Bool) (xs : List Bytes) (h : needsEscape x
 theorem escape_ne_marker : ¬ escape = marker := by decide
 
 /-- the plain-list loop reads back what the writer wrote for `x :: xs` -/
-theorem loadPlainList_enc (db : Db) (k x : Bytes) (xs : List Bytes) (dl : Option Nat)
+theorem loadPlainList_enc (db : Db) (k x : Bytes) (xs : List Bytes) (dl : Option Nat) (hd : dlOk dl = true)
     (hx : x.length < two32) (hall : ∀ y ∈ xs, y.length < two32) (hf : k ∉ keys db) (rest : Bytes) :
     loadPlainList true db k dl (xs.length + 1) (encString x ++ (encStrings xs ++ rest)) =
       .ok (k, db ++ [⟨k, .list (x :: xs), dl⟩]) rest (x.length :: lengths xs) := by
@@ -174,12 +174,12 @@ theorem loadPlainList_enc (db : Db) (k x : Bytes) (xs : List Bytes) (dl : Option
   rw [readString_encString x hx]
   simp only [Res.bind_ok, rpush, Bool.not_true, Bool.false_eq_true, if_false, hnone, lift_ok, Nat.add_sub_cancel]
   rw [readStrings_encStrings xs hall rest]
-  simp only [Res.bind_ok, rpushMore, hfind, putEntry_put_key, expireOpt_put, lift_ok]
+  simp only [Res.bind_ok, rpushMore, hfind, putEntry_put_key, expireOpt_put _ _ _ _ hd, lift_ok]
   simp [putEntry_fresh db ⟨k, .list (x :: xs), dl⟩ hf]
 
 /-- a list written WITHOUT an escape element whose first element is neither the marker nor (for a
     loader that knows the rule) the escape string: the regular-list branch -/
-theorem loadTyped_list_plain (fix : Fix) (db : Db) (k x : Bytes) (xs : List Bytes) (dl : Option Nat)
+theorem loadTyped_list_plain (fix : Fix) (db : Db) (k x : Bytes) (xs : List Bytes) (dl : Option Nat) (hd : dlOk dl = true)
     (hk : strOk k = true) (hv : valueWF (.list (x :: xs)) = true) (hm : ¬ x = marker)
     (he : ¬ (fix.listEscape = true ∧ x = escape)) (hf : k ∉ keys db) (rest : Bytes) :
     loadTyped fix true db 1 dl (encString k ++ (encValue (.list (x :: xs)) ++ rest)) =
@@ -202,13 +202,13 @@ theorem loadTyped_list_plain (fix : Fix) (db : Db) (k x : Bytes) (xs : List Byte
   have := readStrings_encStrings xs hall rest
   simp only [encStrings] at this
   rw [this]
-  simp only [Res.bind_ok, rpushMore, hfind, putEntry_put_key, expireOpt_put, lift_ok]
+  simp only [Res.bind_ok, rpushMore, hfind, putEntry_put_key, expireOpt_put _ _ _ _ hd, lift_ok]
   simp [putEntry_fresh db ⟨k, .list (x :: xs), dl⟩ hf, valueAllocs, lengths]
 
 /-- a list written WITH the escape element, read by a loader that knows the rule: the element is
     dropped and `x :: xs` is a plain list whatever `x` is -/
 theorem loadTyped_list_escaped (fix : Fix) (hfix : fix.listEscape = true) (db : Db) (k x : Bytes) (xs : List Bytes)
-    (dl : Option Nat) (hk : strOk k = true) (hv : valueWF (.list (escape :: x :: xs)) = true)
+    (dl : Option Nat) (hd : dlOk dl = true) (hk : strOk k = true) (hv : valueWF (.list (escape :: x :: xs)) = true)
     (hf : k ∉ keys db) (rest : Bytes) :
     loadTyped fix true db 1 dl (encString k ++ (encValue (.list (escape :: x :: xs)) ++ rest)) =
       .ok (k, db ++ [⟨k, .list (x :: xs), dl⟩]) rest (k.length :: valueAllocs (.list (escape :: x :: xs))) := by
@@ -224,14 +224,14 @@ theorem loadTyped_list_escaped (fix : Fix) (hfix : fix.listEscape = true) (db : 
   simp only [Res.bind_ok, hge, if_true]
   rw [readString_encString escape helen]
   simp only [Res.bind_ok, escape_ne_marker, hfix, and_self, if_false, if_true, List.length_cons, Nat.add_sub_cancel]
-  have := loadPlainList_enc db k x xs dl hx hall hf rest
+  have := loadPlainList_enc db k x xs dl hd hx hall hf rest
   simp only [encStrings] at this
   rw [this]
   simp [valueAllocs, lengths]
 
 /-- EVERY well-formed list, written by a writer and read by a loader that agree on the escape rule
     (`fix.listEscape` on both sides).  Without the rule the marker-headed lists are excluded. -/
-theorem loadTyped_list (fix : Fix) (db : Db) (k : Bytes) (xs : List Bytes) (dl : Option Nat)
+theorem loadTyped_list (fix : Fix) (db : Db) (k : Bytes) (xs : List Bytes) (dl : Option Nat) (hd : dlOk dl = true)
     (hk : strOk k = true) (hv : valueWF (escValue fix.listEscape (.list xs)) = true)
     (hm : startsWithMarker (.list xs) = false ∨ fix.listEscape = true)
     (hf : k ∉ keys db) (rest : Bytes) :
@@ -249,21 +249,21 @@ theorem loadTyped_list (fix : Fix) (db : Db) (k : Bytes) (xs : List Bytes) (dl :
         | inl h => simpa [startsWithMarker] using h
         | inr h => rw [hE] at h; cases h
       simp only [escValue_false] at hv ⊢
-      exact loadTyped_list_plain fix db k x xs dl hk hv hm' (by simp [hE]) hf rest
+      exact loadTyped_list_plain fix db k x xs dl hd hk hv hm' (by simp [hE]) hf rest
     | true =>
       rw [hE] at hv
       cases hN : needsEscape (x :: xs) with
       | true =>
         have hi : listItems true (x :: xs) = escape :: x :: xs := by simp [listItems, hN]
         simp only [escValue, hi] at hv ⊢
-        exact loadTyped_list_escaped fix hE db k x xs dl hk hv hf rest
+        exact loadTyped_list_escaped fix hE db k x xs dl hd hk hv hf rest
       | false =>
         have hi : listItems true (x :: xs) = x :: xs := listItems_of_not_needs true _ hN
         simp only [escValue, hi] at hv ⊢
         simp [needsEscape] at hN
-        exact loadTyped_list_plain fix db k x xs dl hk hv hN.1 (by simp [hN.2]) hf rest
+        exact loadTyped_list_plain fix db k x xs dl hd hk hv hN.1 (by simp [hN.2]) hf rest
 
-theorem loadTyped_zset (fix : Fix) (db : Db) (k : Bytes) (zs : List (Bytes × Nat)) (dl : Option Nat)
+theorem loadTyped_zset (fix : Fix) (db : Db) (k : Bytes) (zs : List (Bytes × Nat)) (dl : Option Nat) (hd : dlOk dl = true)
     (hk : strOk k = true) (hv : valueWF (.zset zs) = true) (hf : k ∉ keys db) (rest : Bytes) :
     loadTyped fix true db 3 dl (encString k ++ (encValue (.zset zs) ++ rest)) =
       .ok (k, db ++ [⟨k, .zset zs, dl⟩]) rest (k.length :: valueAllocs (.zset zs)) := by
@@ -293,7 +293,7 @@ theorem loadTyped_zset (fix : Fix) (db : Db) (k : Bytes) (zs : List (Bytes × Na
     have := readZPairs_encZItems zs (fun p hp => hall p.1 p.2 hp) rest
     simp only [encZItems] at this
     rw [this]
-    simp only [Res.bind_ok, zaddMore, hfind, hup, putEntry_put_key, expireOpt_put, lift_ok]
+    simp only [Res.bind_ok, zaddMore, hfind, hup, putEntry_put_key, expireOpt_put _ _ _ _ hd, lift_ok]
     simp [putEntry_fresh db ⟨k, .zset ((m, sc) :: zs), dl⟩ hf, valueAllocs, zLengths]
 
 /-! ### streams: the `entry_idx` loop -/
@@ -395,7 +395,7 @@ theorem streamLoop_enc (db : Db) (k : Bytes) (remaining : Nat) (hrem : remaining
       rw [this]
       simp [sAllocs, List.append_assoc]
 
-theorem loadTyped_stream (fix : Fix) (db : Db) (k : Bytes) (es : List SEntry) (dl : Option Nat)
+theorem loadTyped_stream (fix : Fix) (db : Db) (k : Bytes) (es : List SEntry) (dl : Option Nat) (hd : dlOk dl = true)
     (hk : strOk k = true) (hv : valueWF (.stream es) = true)
     (hs : isEmptyStream (.stream es) = false ∨ fix.keepEmptyStream = true)
     (hf : k ∉ keys db) (rest : Bytes) :
@@ -421,8 +421,8 @@ theorem loadTyped_stream (fix : Fix) (db : Db) (k : Bytes) (es : List SEntry) (d
       cases hs with
       | inl h => simp [isEmptyStream] at h
       | inr h => exact h
-    simp only [hk', streamItems, true_and, if_true, setValue, lift_ok, Res.bind_ok, encSEntries,
-      List.flatMap_nil, List.nil_append, streamLoop, Nat.lt_irrefl, not_false_eq_true, expireOpt_put]
+    simp only [hk', streamItems, true_and, if_true, setValue, dlOk, Bool.not_true, Bool.false_eq_true, if_false, lift_ok, Res.bind_ok, encSEntries,
+      List.flatMap_nil, List.nil_append, streamLoop, Nat.lt_irrefl, not_false_eq_true, expireOpt_put _ _ _ _ hd]
     simp [putEntry_fresh db ⟨k, .stream [], dl⟩ hf, valueAllocs]
   | cons e es =>
     have hne : ¬ (streamItems (e :: es) = 0) := by rw [streamItems_ge]; omega
@@ -436,7 +436,7 @@ theorem loadTyped_stream (fix : Fix) (db : Db) (k : Bytes) (es : List SEntry) (d
       (by simpa [lastId] using hinc) hall'
     simp only [streamState] at this
     rw [this]
-    simp only [Res.bind_ok, List.nil_append, expireOpt_put, lift_ok]
+    simp only [Res.bind_ok, List.nil_append, expireOpt_put _ _ _ _ hd, lift_ok]
     simp [putEntry_fresh db ⟨k, .stream (e :: es), dl⟩ hf, valueAllocs]
 
 /-! ### all types at once -/
@@ -446,7 +446,7 @@ theorem loadTyped_stream (fix : Fix) (db : Db) (k : Bytes) (es : List SEntry) (d
     exactly the string lengths — for every value that is well-formed as written, that is not a
     marker-headed list (allowed once writer and loader apply the escape rule) and not an empty stream
     (allowed once the loader keeps empty streams). -/
-theorem loadTyped_encKV (fix : Fix) (db : Db) (k : Bytes) (v : Value) (dl : Option Nat)
+theorem loadTyped_encKV (fix : Fix) (db : Db) (k : Bytes) (v : Value) (dl : Option Nat) (hd : dlOk dl = true)
     (hk : strOk k = true) (hv : valueWF (escValue fix.listEscape v) = true)
     (hm : startsWithMarker v = false ∨ fix.listEscape = true)
     (hs : isEmptyStream v = false ∨ fix.keepEmptyStream = true)
@@ -454,11 +454,11 @@ theorem loadTyped_encKV (fix : Fix) (db : Db) (k : Bytes) (v : Value) (dl : Opti
     loadTyped fix true db (typeByte v) dl (encString k ++ (saveValue fix.listEscape v ++ rest)) =
       .ok (k, db ++ [⟨k, v, dl⟩]) rest (k.length :: valueAllocs (escValue fix.listEscape v)) := by
   cases v with
-  | str b => exact loadTyped_str fix db k b dl hk hv hf rest
-  | list xs => exact loadTyped_list fix db k xs dl hk hv hm hf rest
-  | set xs => exact loadTyped_set fix db k xs dl hk hv hf rest
-  | hash fs => exact loadTyped_hash fix db k fs dl hk hv hf rest
-  | zset zs => exact loadTyped_zset fix db k zs dl hk hv hf rest
-  | stream es => exact loadTyped_stream fix db k es dl hk hv hs hf rest
+  | str b => exact loadTyped_str fix db k b dl hd hk hv hf rest
+  | list xs => exact loadTyped_list fix db k xs dl hd hk hv hm hf rest
+  | set xs => exact loadTyped_set fix db k xs dl hd hk hv hf rest
+  | hash fs => exact loadTyped_hash fix db k fs dl hd hk hv hf rest
+  | zset zs => exact loadTyped_zset fix db k zs dl hd hk hv hf rest
+  | stream es => exact loadTyped_stream fix db k es dl hd hk hv hs hf rest
 
 end Ferrous.Rdb
